@@ -276,9 +276,10 @@ def params_of(query):
 
 
 def query_kind(query):
-    return 'runids=' + expr_kind(query['runids']) + ';names=' + ','.join(
-        lv[0] + ('-' if query[lv] is None else str(len(query[lv])) + ('?' if UNKNOWN in query[lv] else '')) for lv in LEVELS
-    )
+    '''coarse, stable description of the kind of query'''
+    names = [lv for lv in LEVELS if query[lv]]
+    unknown = any(UNKNOWN in query[lv] for lv in names)
+    return 'runids=' + expr_kind(query['runids']) + (';unknown-name' if unknown else '')
 
 
 class Checker:
